@@ -31,8 +31,8 @@ META = {
     "stubs": [],
 }
 
-STRUCT = [("TA", dict(T=2)), ("TB", dict(T=2)), ("TC", dict(T=2)), ("TD", dict(T=2)), ("TF", dict(T=3)), ("TG", dict(T=2)), ("TH", dict(T=3)), ("TJ", dict(T=2)), ("TK", dict(T=2)), ("TK", dict(T=3)), ("TL", dict(T=2)), ("TM", dict(T=2)), ("TN", dict(T=2))]
-ROUTING = [("TL", dict(T=2)), ("TL", dict(T=3)), ("TL", dict(T=2, sym_next=True)), ("TK", dict(T=2)), ("TK", dict(T=3)), ("TA", dict(T=2, sym_k=True, sym_g=True, nw=3, nc=2))]
+STRUCT = [("TA", dict(T=2)), ("TA", dict(T=2, lower=True, borrow=True)), ("TP", dict(T=2)), ("TQ", dict(T=2)), ("TB", dict(T=2)), ("TC", dict(T=2)), ("TD", dict(T=2)), ("TF", dict(T=3)), ("TG", dict(T=2)), ("TH", dict(T=3)), ("TJ", dict(T=2)), ("TK", dict(T=2)), ("TK", dict(T=3)), ("TL", dict(T=2)), ("TM", dict(T=2)), ("TN", dict(T=2))]
+ROUTING = [("TL", dict(T=2)), ("TL", dict(T=3)), ("TL", dict(T=2, sym_next=True)), ("TK", dict(T=2)), ("TK", dict(T=3)), ("TA", dict(T=2, sym_k=True, sym_g=True, nw=3, nc=2)), ("TA", dict(T=2, sym_g=True, nw=3, nc=2, borrow=True))]
 
 
 def dep_orders():
